@@ -12,6 +12,7 @@ import (
 	"crypto/elliptic"
 	"crypto/rand"
 	"crypto/sha256"
+	"crypto/x509"
 	"encoding/base64"
 	"encoding/binary"
 	"encoding/json"
@@ -235,10 +236,64 @@ func TestVerifC19(t *testing.T) {
 		c.MarshalJSON()
 		return "ok"
 	}
+	// did:key, modelled part: the checks between the DID string and the library calls (NutsModel/C19/DidKey.lean)
+	didKeyOp := func(in string) {
+		op := map[string]any{"op": "didkey", "method": "", "id": "", "b58Ok": false, "keyType": nil, "keyLength": 0, "rsaSize": nil, "vmOk": true}
+		id, err := did.ParseDID(in)
+		if err != nil {
+			if in != "did:key:" {
+				return
+			}
+			id = &did.DID{Method: "key"} // the parser refuses an empty id; Resolve takes a did.DID value, so its own guard is exercised directly
+		}
+		op["method"], op["id"] = id.Method, id.ID
+		if len(id.ID) > 0 {
+			if mc, err := base58.DecodeAlphabet(id.ID[1:], base58.BTCAlphabet); err == nil {
+				op["b58Ok"] = true
+				rd := bytes.NewReader(mc)
+				if kt, err := binary.ReadUvarint(rd); err == nil {
+					op["keyType"] = fmt.Sprint(kt)
+					rest, _ := io.ReadAll(rd)
+					op["keyLength"] = len(rest)
+					if k, err := x509.ParsePKCS1PublicKey(rest); err == nil {
+						op["rsaSize"] = k.Size()
+					}
+				}
+			}
+		}
+		kind := ""
+		res := c19Guard(func() string {
+			_, _, err := didkey.NewResolver().Resolve(*id, nil)
+			if err == nil {
+				return "ok"
+			}
+			m := err.Error()
+			for _, p := range [][2]string{{"unsupported DID method", "method"}, {"does not start with 'z'", "z"}, {"invalid base58btc", "base58"}, {"invalid multicodec", "multicodec"},
+				{"bls12381", "bls"}, {"invalid public key length", "length"}, {"secp256k1 public keys are not supported", "secp256k1"}, {"invalid PKCS#1", "pkcs1"},
+				{"too small", "rsa-small"}, {"unsupported public key type", "unsupported"}} {
+				if strings.Contains(m, p[0]) {
+					kind = p[1]
+					return "err:" + p[1]
+				}
+			}
+			kind = "vm"
+			return "err:vm"
+		})
+		op["vmOk"] = kind != "vm"
+		if len(in) > 600 {
+			op["id"] = c19Short(id.ID, 600) // (only the first character of the id matters to the model)
+		}
+		o.emit(op, c19Class(res))
+	}
 	eps := map[string]func(string) string{"didweb.Resolve": web, "didkey.Resolve": key, "didjwk.Resolve": jwkR, "crypto.ParseJWT": parseJWT, "credential.vp": vpPath, "credential.vc": vcPath}
 
 	replay, isReplay := c19ReadOps()
 	for _, op := range replay {
+		if op["op"] == "didkey" {
+			m, _ := op["method"].(string)
+			i, _ := op["id"].(string)
+			didKeyOp("did:" + m + ":" + i)
+		}
 		name, _ := op["op"].(string)
 		if fn, ok := eps[strings.TrimPrefix(name, "x.")]; ok && strings.HasPrefix(name, "x.") {
 			in, _ := op["input"].(string)
@@ -252,6 +307,9 @@ func TestVerifC19(t *testing.T) {
 		o.dist[ep+":"+kind]++
 		fn := eps[ep]
 		o.explore(ep, in, func() string { return fn(in) })
+		if ep == "didkey.Resolve" {
+			didKeyOp(in)
+		}
 	}
 
 	// ---- did:web: transport-level variants, then systematic + random mutations of the document
